@@ -18,7 +18,7 @@ RULE = ("sp.prod cases: A x, A^T y, transpose(A) y, <y, A x>, <A^T y, x>, to_den
 TRUSTED = c06.TRUSTED
 ASSUMPTIONS = ["Rust semantics of Vec/usize as modelled (checked indexing, debug-profile overflow checks)",
                "the sampled cases are where model and code were compared; the theorems are about the model"]
-UNPROVED = ["floating-point products are tied bitwise to the float instance of the model; the theorems are exact-arithmetic (ring) statements",
+UNPROVED = ["round two: sp_mul_backward_error / sp_tmul_backward_error / sp_mul_dense_backward_error (componentwise backward error gamma_{m_i}, m_i = stored entries of the row) in the standard model and at binary64 via Flocq; besides, floating-point products are tied bitwise to the float instance of the model",
             "the products are proved equal to the textbook sums over sp_entry (the matrix the storage denotes) and sp_entry is proved to be the "
             "entry of to_dense for duplicate-free storage (to_dense_entry); the dense Matrix::multiply itself belongs to C03 and is not re-proved here",
             "with duplicate positions multiply sums the duplicates while to_dense keeps the last one -- outside the claim, tied only"]
